@@ -341,7 +341,9 @@ def frame(ctx: Ctx) -> List[Ob]:
     obs.append(ctx.ob("FRAME", ["C04"], f, "rename is set_data(new_name) for plain string nodes", None, ok, ""))
     # set_data: which nodes receive the new data / id
     f = m.func("Node.set_data")
-    loops = [n for n in ast.walk(f.node) if isinstance(n, ast.For)]
+    loops = [n for n in ast.walk(f.node) if isinstance(n, ast.For) and any(
+        isinstance(x, ast.Assign) and any(isinstance(t, ast.Attribute) and t.attr in ("_data", "_data_id") for t in x.targets)
+        for st in n.body for x in ast.walk(st))]
     ok = all(isinstance(m.parent_of(lp), ast.If) and norm(m.parent_of(lp).test) == "with_clones" for lp in loops) and len(loops) == 2
     obs.append(ctx.ob("FRAME", ["C04", "C02"], f, "set_data touches the other clones only under with_clones", None, ok, "" if ok else "without with_clones exactly this node changes"))
     t = " | ".join(norm(s) for s in f.body)
